@@ -1011,7 +1011,7 @@ def check_C15(tier, seed, replay):
     d = vlib.famdir("bad", tier)
     cdir = os.path.join(d, "corpus")
     os.makedirs(cdir, exist_ok=True)
-    json.dump([peg.grammar_json(g) for g in gs], open(os.path.join(cdir, "corpus.json"), "w"))
+    json.dump(peg.corpus_json(gs), open(os.path.join(cdir, "corpus.json"), "w"))
     t = tlc_simple("bad", "CompileFront.tla", "CompileFront.cfg", tier, env={"CORPUS": os.path.join(cdir, "corpus.json")})
     if t["rc"] != 0:
         raise ToolError("CompileFront: the specification's verdict disagrees with the corpus generator:\n%s" % (t["violation"] or "")[:2000])
@@ -1452,7 +1452,7 @@ def check_C03(tier, seed, replay):
     d = vlib.famdir("types", tier)
     pre = os.path.join(d, "pre")
     os.makedirs(pre, exist_ok=True)
-    json.dump([peg.grammar_json(g) for g in gs], open(os.path.join(pre, "corpus.json"), "w"))
+    json.dump(peg.corpus_json(gs), open(os.path.join(pre, "corpus.json"), "w"))
     t = tlc_simple("types", "TypeShapes.tla", "TypeShapes.cfg", tier, env={"CORPUS": os.path.join(pre, "corpus.json")})
     if t["rc"] != 0:
         # ArityMapping violated: the implemented arity lattice (transcribed) disagrees with the documented mapping
@@ -1529,6 +1529,158 @@ def check_C03(tier, seed, replay):
     return res
 
 
-CHECKS = {"C03": check_C03, "C16": check_C16, "C20": check_C20, "C15": check_C15, "C18": check_C18, "C11": check_C11, "C01": check_C01, "C02": check_C02, "C04": check_C04, "C05": check_C05, "C06": check_C06,
+
+# ---------------------------------------------------------------------------------------------- C12
+def meta_grammar():
+    """the grammar of grammar files, read from grammar.ebnf by the independent reader"""
+    import ebnf_reader
+    meta = ebnf_reader.read_grammar(open(os.path.join(vlib.REPO, "grammar.ebnf")).read(), "meta")
+    meta.meta = {"lean": True, "shape": "grammar.ebnf"}
+    meta.alpha = []
+    meta.maxlen = 0
+    return meta
+
+
+def front_ast(front, text, path):
+    with open(path, "w") as f:
+        f.write(text)
+    r = run_door([front, "ast", path], timeout=60)
+    return r
+
+
+def check_C12(tier, seed, replay):
+    import random
+    import ebnf_reader
+    import families
+    import layout
+    import peg
+    from concurrent.futures import ThreadPoolExecutor
+    res = Result()
+    rnd = random.Random(seed * 977 + 12)
+    front = tools_bin("front")
+    d = vlib.famdir("meta", tier)
+    tdir = os.path.join(d, "texts")
+    os.makedirs(tdir, exist_ok=True)
+    # A. the front end as an instance of the machine: Meta (independent reader) run by TLC on laid-out texts
+    sources = families.meta_sources()
+    extra_src = []
+    for fam in ("ops", "fields", "user", "ws"):
+        fs = families.family(fam, tier, seed)
+        extra_src += families.sample(rnd, [g for g in fs if len(peg.grammar_text(g)) < 260], 2 if tier == "quick" else 12)
+    texts = []    # (name, source grammar, text)
+    for g in sources + extra_src:
+        texts.append(("%s/plain" % g.meta.get("shape", g.id), g, layout.layout_text(g, rnd, "plain")))
+        for k in range(1 if tier == "quick" else 4):
+            texts.append(("%s/wild%d" % (g.meta.get("shape", g.id), k), g, layout.layout_text(g, rnd, "wild")))
+    if replay:
+        rp = json.load(open(replay))
+        if rp.get("text") is not None:
+            texts = [(rp.get("name", "replay"), None, rp["text"])]
+    meta = meta_grammar()
+    meta.extra = [list(t) for _, _, t in texts]
+    cdir = os.path.join(d, "corpus")
+    os.makedirs(cdir, exist_ok=True)
+    json.dump(peg.corpus_json([meta]), open(os.path.join(cdir, "corpus.json"), "w"))
+    key = "meta:%s:%s:%s:%s" % (vlib.tool_hash(), vlib._hash_tree([os.path.join(vlib.REPO, "grammar.ebnf")], (".ebnf",)), tier, seed)
+    pj = os.path.join(d, "tlc.json")
+    if vlib.cached(d, "metatlc", key) and os.path.exists(pj) and not replay:
+        t = json.load(open(pj))
+    else:
+        out = os.path.join(d, "tlc.out")
+        rc, secs = vlib.run_tlc("MCPeg.tla", "MCPeg.cfg", out, env={"CORPUS": os.path.join(cdir, "corpus.json")}, timeout=7200,
+                                extra=("-coverage", "1"))
+        t = vlib.parse_tlc_output(out)
+        t["rc"], t["secs"] = rc, secs
+        log("TLC Meta run: rc=%d %d states, %d texts in %.0fs" % (rc, t["distinct"], len(t["replays"]), secs))
+        if rc != 0:
+            raise ToolError("Meta run: the machine instantiated with grammar.ebnf violates an invariant (machine vs reference "
+                            "semantics, or grammar.ebnf is not well-formed):\n%s" % (t["violation"] or "")[:2000])
+        if not replay:
+            json.dump(t, open(pj, "w"))
+            vlib.mark(d, "metatlc", key)
+    spec_tree = {tuple(r["inp"]): r for r in t["replays"]}
+
+    def real(i):
+        return front_ast(front, texts[i][2], os.path.join(tdir, "t%04d.ebnf" % i))
+
+    with ThreadPoolExecutor(max_workers=vlib.NCPU) as ex:
+        reals = list(ex.map(real, range(len(texts))))
+    n_meta = 0
+    for (name, src, text), r in zip(texts, reals):
+        extra = {"name": name, "text": text, "site": name.split("/")[0]}
+        fail = door_failure(r)
+        if fail:
+            res.add(Violation("C12", "Reads", "the front end %s on %s" % (fail, name), None, extra))
+            continue
+        e = spec_tree.get(tuple(ord(c) for c in text))
+        if e is None:
+            raise ToolError("no Meta outcome for text %s" % name)
+        n_meta += 1
+        out = r["out"].strip()
+        if out.startswith("error\t"):
+            if e["ok"]:
+                res.add(Violation("C12", "Reads", "the front end rejects a text that follows the syntax reference (%s): %s" % (name, out[:120]),
+                                  None, extra))
+            continue
+        if not e["ok"]:
+            res.add(Violation("C12", "Reads", "the front end accepts a text the grammar of grammar files does not match (%s)" % name, None, extra))
+            continue
+        tree = dbgparse.parse_debug(out)
+        if tree != e["tree"]:
+            res.add(Violation("C12", "Denotes", "the front end reads %s into a different structure than grammar.ebnf denotes" % name, None,
+                              dict(extra, got=json.dumps(tree)[:1500], expected=json.dumps(e["tree"])[:1500])))
+            continue
+        if src is not None:
+            back = ebnf_reader.norm_grammar(layout.grammar_of(tree))
+            if back != ebnf_reader.norm_grammar(src):
+                res.add(Violation("C12", "Denotes", "the structure read from %s is not the grammar the text was printed from" % name, None, extra))
+    # B. every grammar file of the repository: the independent reader and the real front end agree
+    repo_files = [os.path.join(vlib.REPO, "grammar.ebnf")]
+    for root, dn, fn in os.walk(os.path.join(vlib.REPO, "test", "src")):
+        repo_files += [os.path.join(root, f) for f in sorted(fn) if f.endswith("ebnf")]
+    n_repo = 0
+    for f_ in repo_files:
+        text = open(f_).read()
+        r = front_ast(front, text, os.path.join(tdir, "repo.ebnf"))
+        fail = door_failure(r)
+        name = os.path.relpath(f_, vlib.REPO)
+        if fail or r["out"].startswith("error\t"):
+            res.add(Violation("C12", "Reads", "the front end does not read %s: %s" % (name, fail or r["out"][:100]), None, {"name": name, "site": name}))
+            continue
+        n_repo += 1
+        if ebnf_reader.norm_grammar(layout.grammar_of(dbgparse.parse_debug(r["out"].strip()))) != ebnf_reader.norm_grammar(
+                ebnf_reader.read_grammar(text)):
+            res.add(Violation("C12", "Denotes", "the front end and the independent reader of doc/syntax.md read %s differently" % name, None,
+                              {"name": name, "site": name}))
+    # C. behaviour of parsers generated from differently spelled grammars, and of every escape form
+    res2, runs, cases = generic(
+        "C12", ["layout", "esc"], tier, seed, replay if replay and json.load(open(replay)).get("family") else None,
+        [lambda p, c: None if c.crashed else props.p_conforms(p, c), lambda p, c: None if c.crashed else props.p_tree(p, c, ranges=True)],
+        "", lambda c: c.inp != [], require=("Lit", "Range", "CallChar")) if not (replay and not json.load(open(replay)).get("family")) else (Result(), [], [])
+    res.violations += res2.violations
+    res.notes += res2.notes
+    cov = res2.coverage or {"states": 0, "transitions": 0, "evaluations": 0, "samples": []}
+    res.coverage = {
+        "states": cov.get("states", 0) + t["distinct"], "transitions": cov.get("transitions", 0) + t["states"],
+        "traces_validated_against_impl": n_meta + n_repo + cov.get("evaluations", 0),
+        "evaluations": len(texts) + len(repo_files) + cov.get("evaluations", 0),
+        "distinct_nontrivial": sum(1 for n_, _, _ in texts if "/wild" in n_) + sum(1 for c in cases if c.inp),
+        "rule": "A: grammars using every element of the documented syntax, printed plainly and in wild layouts (whitespace, "
+                "comments, both quote styles, every escape form, redundant parentheses, directive order), read by TLC running "
+                "PegMachine on grammar.ebnf (obtained with an independent reader) and by the real front end - trees must be equal, "
+                "and equal to the source AST; B: every .ebnf of the repository, independent reader vs real front end; C: parsers "
+                "generated from wildly spelled grammars and from every escape form behave as the AST says on all inputs up to the "
+                "bound; non-trivial = wild layout, or non-empty input",
+        "meta_texts": n_meta, "repo_grammars": n_repo, "meta_run_states": t["distinct"],
+        "behaviour_cases": len(cases), "exhaustive": False,
+        "samples": [{"layout": texts[1][2][:400]}] + cov.get("samples", [])[:2],
+    }
+    res.assumptions = ["the independent reader (gen/ebnf_reader.py) is trusted for one input, grammar.ebnf, and cross-checked on all "
+                       "repository grammars and all corpus texts",
+                       "the layout printer embodies the documented syntax (doc/syntax.md)"]
+    return res
+
+
+CHECKS = {"C12": check_C12, "C03": check_C03, "C16": check_C16, "C20": check_C20, "C15": check_C15, "C18": check_C18, "C11": check_C11, "C01": check_C01, "C02": check_C02, "C04": check_C04, "C05": check_C05, "C06": check_C06,
           "C07": check_C07, "C08": check_C08, "C09": check_C09, "C10": check_C10, "C13": check_C13,
           "C14": check_C14, "C19": check_C19}
